@@ -92,7 +92,13 @@ def run(rep: Report, tier: str) -> None:
     gtxt = [show(g) for g, _ in se_raises]
     ev_over = any("current_taxable_event_amount" in g and ">=" in g.replace("<=", "") or ("current_taxable_event_amount" in g and "crypto_balance_change" in g and "!=" in g and ">=" in g) for g in gtxt)
     # the two 'else: raise' arms: guard = not (sum == amount) and not (sum < amount)
-    arms = [g for g in gtxt if "!=" in g and ">=" in g]
+    def _exceeded(g) -> bool:  # running sum != amount and running sum >= amount, whichever side each operand is written on
+        cmps = [t for t in subterms(g) if t[0] == "cmp"]
+        ne = any(t[1] == "!=" for t in cmps)
+        ge = any((t[1] == ">=" and "current_" in show(t[2])) or (t[1] == "<=" and "current_" in show(t[3])) for t in cmps)
+        return ne and ge
+
+    arms = [show(g) for g, _ in se_raises if _exceeded(g)]
     rep.check(len(arms) >= 2, rc, so.module, so.qualname, "running sums exceeding an event's or a lot's amount raise", f"GainLossSet._sort_entries has {len(arms)} 'running sum exceeded' raises (expected one for the taxable event and one for the acquired lot): an over-covered event or overspent lot would be numbered instead of rejected", loc(so.node))
 
     # ---------------------------------------------------------------- C02.d exhaustion
